@@ -175,17 +175,62 @@ def _run_task(args):
         return tid, [], {'wall_s': time.time() - t0}, traceback.format_exc()
 
 
-def run_tasks(modname, task_ids, tier, seed, jobs=None):
+def _child(conn, args):
+    try:
+        conn.send(_run_task(args))
+    except BaseException:
+        try:
+            conn.send((args[1], [], {}, traceback.format_exc()))
+        except Exception:
+            pass
+    finally:
+        conn.close()
+
+
+def run_tasks(modname, task_ids, tier, seed, jobs=None, budgets=None):
+    """one forked process per task (at most `jobs` at a time); a task that exceeds its wall-clock budget is killed and
+    reported as undecided (never as a violation)"""
     jobs = jobs or int(os.environ.get('PYVC_JOBS', '0')) or min(16, os.cpu_count() or 4)
-    args = [(modname, tid, tier, seed) for tid in task_ids]
-    results = []
-    if jobs <= 1 or len(args) <= 1:
-        for a in args:
-            results.append(_run_task(a))
-    else:
-        ctxm = mp.get_context('fork')
-        with ctxm.Pool(min(jobs, len(args))) as pool:
-            for r in pool.imap_unordered(_run_task, args, chunksize=1):
-                results.append(r)
-    results.sort(key=lambda r: task_ids.index(r[0]))
-    return results
+    budgets = budgets or {}
+    pending = [(modname, tid, tier, seed) for tid in task_ids]
+    if jobs <= 1 and not budgets:
+        return [_run_task(a) for a in pending]
+    ctxm = mp.get_context('fork')
+    running = {}
+    results = {}
+    while pending or running:
+        while pending and len(running) < jobs:
+            a = pending.pop(0)
+            pc, cc = ctxm.Pipe(duplex=False)
+            p = ctxm.Process(target=_child, args=(cc, a))
+            p.start()
+            cc.close()
+            running[a[1]] = (p, pc, time.time())
+        done = []
+        for tid, (p, pc, t0) in running.items():
+            if pc.poll(0.01):
+                try:
+                    results[tid] = pc.recv()
+                except EOFError:
+                    results[tid] = (tid, [], {}, 'worker died without a result')
+                p.join(5)
+                done.append(tid)
+            elif not p.is_alive():
+                results[tid] = (tid, [], {}, f'worker exited with code {p.exitcode} without a result')
+                done.append(tid)
+            else:
+                b = budgets.get(tid)
+                if b and time.time() - t0 > b:
+                    p.terminate()
+                    p.join(5)
+                    if p.is_alive():
+                        p.kill()
+                    results[tid] = (tid, [{'id': tid + ':in-budget', 'task': tid, 'status': 'unknown',
+                                           'detail': f'task exceeded its wall-clock budget of {b}s and was stopped'}],
+                                    {'paths': 0, 'solver_ms': 0.0, 'covers': {}, 'used': []}, None)
+                    done.append(tid)
+        for tid in done:
+            running.pop(tid)
+        if not done:
+            time.sleep(0.02)
+    return [results[tid] for tid in task_ids]
